@@ -274,9 +274,9 @@ theorem div_rule_secant (s v h : Rat) (hv : v ≠ 0) (hvh : v + h ≠ 0) :
 
 /-- A slicer with any pending operations (chains, operand operations, transposed geometries), applied to any
     rectangular operand, equals its specification: explicit projection matrices and the operand operations. -/
-theorem slicer_eq_spec (S : Slicer) (hS : S.Good) (y : Val) (hy : y.Shaped) :
+theorem slicer_eq_spec_wf (S : Slicer) (hS : S.WF) (y : Val) (hy : y.Shaped) :
     (S.apply y).map obs = S.spec (obs y) := by
-  have h1 := applyCore_obs S.core hS.1.1 y hy
+  have h1 := applyCore_obs S.core hS.1 y hy
   simp only [Slicer.apply, Slicer.spec]
   cases h2 : applyCore S.core y with
   | error e =>
@@ -284,6 +284,10 @@ theorem slicer_eq_spec (S : Slicer) (hS : S.Good) (y : Val) (hy : y.Shaped) :
   | ok z =>
     rw [h2] at h1; simp only [Except.map] at h1; rw [← h1]
     exact applySteps_obs S.pending hS.2 z (specCore_shaped S.core (obs y) (obs z) h1.symm)
+
+theorem slicer_eq_spec (S : Slicer) (hS : S.Good) (y : Val) (hy : y.Shaped) :
+    (S.apply y).map obs = S.spec (obs y) :=
+  slicer_eq_spec_wf S hS.wf y hy
 
 /-! ## programs -/
 
@@ -325,6 +329,22 @@ theorem transpose_good (S T : Slicer) (hS : S.Good) (h : S.transpose = .ok T) : 
 theorem ProgGood_tail (s : Stmt) (ss : List Stmt) (h : ProgGood (s :: ss)) : ProgGood ss := by
   cases s <;> simp only [ProgGood] at h <;> first | exact h.2 | exact h
 
+theorem transposeProj_good (S T : Slicer) (hS : S.Good) (h : S.transposeProj = .ok T) : T.Good := by
+  unfold Slicer.transposeProj at h
+  cases hT : S.transpose with
+  | error e => rw [hT] at h; cases h
+  | ok T' =>
+    rw [hT] at h
+    cases h
+    have hg := transpose_good S T' hS hT
+    refine ⟨hg.1, ?_⟩
+    intro s hs
+    obtain ⟨s0, hs0, rfl⟩ := List.mem_map.mp hs
+    have := hg.2 s0 hs0
+    cases s0 with
+    | proj c => exact this
+    | left a op => trivial
+
 theorem build_good (env : Env) (henv : Env.Good env) (s : Stmt) (ss : List Stmt) (hp : ProgGood (s :: ss))
     (i : Nat) (S : Slicer) (h : build env s = some (i, .ok S)) : S.Good := by
   cases s with
@@ -349,6 +369,14 @@ theorem build_good (env : Env) (henv : Env.Good env) (s : Stmt) (ss : List Stmt)
     | ok S' =>
       rw [hl] at h
       exact transpose_good S' S (lookup_good env henv j S' hl) h
+  | transpP i' j =>
+    simp only [build, Option.some.injEq, Prod.mk.injEq] at h
+    obtain ⟨_, h⟩ := h
+    cases hl : lookup env j with
+    | error e => rw [hl] at h; cases h
+    | ok S' =>
+      rw [hl] at h
+      exact transposeProj_good S' S (lookup_good env henv j S' hl) h
   | rop i' j a op =>
     simp only [build, Option.some.injEq, Prod.mk.injEq] at h
     obtain ⟨_, h⟩ := h
@@ -385,103 +413,243 @@ theorem build_good (env : Env) (henv : Env.Good env) (s : Stmt) (ss : List Stmt)
           · exact g0.2 s h2
   | apply j y => simp [build] at h
 
-/-- Headline theorem: for EVERY program that builds slicers (constructor, copy, transpose, reverse operations,
-    chaining — in any order, re-using earlier slicers any number of times) and applies them, the outputs of the
-    model (slicing as coded) equal the outputs of the specification (explicit projection matrices), provided
-    the constructed geometries are good and the operands rectangular. -/
-theorem run_eq_specRun (prog : List Stmt) (env : Env) (henv : Env.Good env) (hp : ProgGood prog) :
+/-- Generic program lemma: if an invariant of slicers implies the specification and is preserved by every
+    construction the program performs, model and specification produce the same outputs. -/
+theorem run_eq_of_inv (Inv : Slicer → Prop) (OK : List Stmt → Prop)
+    (htail : ∀ s ss, OK (s :: ss) → OK ss)
+    (happly : ∀ j y ss, OK (.apply j y :: ss) → y.Shaped)
+    (hspec : ∀ S, Inv S → ∀ y : Val, y.Shaped → (S.apply y).map obs = S.spec (obs y))
+    (hbuild : ∀ env : Env, (∀ p ∈ env, Inv p.2) → ∀ s ss, OK (s :: ss) → ∀ i S, build env s = some (i, .ok S) → Inv S)
+    (prog : List Stmt) (env : Env) (henv : ∀ p ∈ env, Inv p.2) (hp : OK prog) :
     run env prog = specRun env prog := by
   induction prog generalizing env with
   | nil => rfl
   | cons s ss ih =>
-    have hp' := ProgGood_tail s ss hp
+    have hp' := htail s ss hp
+    have hlook : ∀ j S, lookup env j = .ok S → Inv S := by
+      intro j S h
+      unfold lookup at h
+      cases hf : env.find? (fun p => p.1 == j) with
+      | none => rw [hf] at h; cases h
+      | some p => rw [hf] at h; cases h; exact henv p (List.mem_of_find?_eq_some hf)
+    have hstep : ∀ (s' : Stmt), s' = s →
+        runWith (fun S y => obs <$> S.apply y)
+          (match build env s' with
+            | some (i, .ok S) => ((i, S) :: env, (none : Option (Except Err DVal)))
+            | _ => (env, none)).1 ss =
+        runWith (fun S y => S.spec (obs y))
+          (match build env s' with
+            | some (i, .ok S) => ((i, S) :: env, (none : Option (Except Err DVal)))
+            | _ => (env, none)).1 ss := by
+      intro s' hs'
+      subst hs'
+      cases hb : build env s' with
+      | none => exact ih env henv hp'
+      | some p =>
+        obtain ⟨i', r'⟩ := p
+        cases r' with
+        | error e => exact ih env henv hp'
+        | ok S =>
+          have hg := hbuild env henv _ ss hp i' S hb
+          exact ih ((i', S) :: env) (fun p hp'' => by
+            rcases List.mem_cons.mp hp'' with rfl | h
+            · exact hg
+            · exact henv p h) hp'
     cases s with
     | apply j y =>
-      have hy : y.Shaped := hp.1
+      have hy : y.Shaped := happly j y ss hp
       simp only [run, specRun, runWith, stepWith]
       congr 1
       · congr 1
         cases hl : lookup env j with
         | error e => rfl
-        | ok S => exact slicer_eq_spec S (lookup_good env henv j S hl) y hy
+        | ok S => exact hspec S (hlook j S hl) y hy
       · exact ih env henv hp'
     | new i d r rs ds =>
-      simp only [run, specRun, runWith, stepWith]
-      congr 1
-      cases hb : build env (.new i d r rs ds) with
-      | none => exact ih env henv hp'
-      | some p =>
-        obtain ⟨i', r'⟩ := p
-        cases r' with
-        | error e => exact ih env henv hp'
-        | ok S =>
-          have hg := build_good env henv _ ss hp i' S hb
-          exact ih ((i', S) :: env) (fun p hp'' => by
-            rcases List.mem_cons.mp hp'' with rfl | h
-            · exact hg
-            · exact henv p h) hp'
+      simp only [run, specRun, runWith, stepWith]; congr 1
+      exact hstep _ rfl
     | copy i j =>
-      simp only [run, specRun, runWith, stepWith]
-      congr 1
-      cases hb : build env (.copy i j) with
-      | none => exact ih env henv hp'
-      | some p =>
-        obtain ⟨i', r'⟩ := p
-        cases r' with
-        | error e => exact ih env henv hp'
-        | ok S =>
-          have hg := build_good env henv _ ss hp i' S hb
-          exact ih ((i', S) :: env) (fun p hp'' => by
-            rcases List.mem_cons.mp hp'' with rfl | h
-            · exact hg
-            · exact henv p h) hp'
+      simp only [run, specRun, runWith, stepWith]; congr 1
+      exact hstep _ rfl
     | transp i j =>
-      simp only [run, specRun, runWith, stepWith]
-      congr 1
-      cases hb : build env (.transp i j) with
-      | none => exact ih env henv hp'
-      | some p =>
-        obtain ⟨i', r'⟩ := p
-        cases r' with
-        | error e => exact ih env henv hp'
-        | ok S =>
-          have hg := build_good env henv _ ss hp i' S hb
-          exact ih ((i', S) :: env) (fun p hp'' => by
-            rcases List.mem_cons.mp hp'' with rfl | h
-            · exact hg
-            · exact henv p h) hp'
+      simp only [run, specRun, runWith, stepWith]; congr 1
+      exact hstep _ rfl
+    | transpP i j =>
+      simp only [run, specRun, runWith, stepWith]; congr 1
+      exact hstep _ rfl
     | rop i j a op =>
-      simp only [run, specRun, runWith, stepWith]
-      congr 1
-      cases hb : build env (.rop i j a op) with
-      | none => exact ih env henv hp'
-      | some p =>
-        obtain ⟨i', r'⟩ := p
-        cases r' with
-        | error e => exact ih env henv hp'
-        | ok S =>
-          have hg := build_good env henv _ ss hp i' S hb
-          exact ih ((i', S) :: env) (fun p hp'' => by
-            rcases List.mem_cons.mp hp'' with rfl | h
-            · exact hg
-            · exact henv p h) hp'
+      simp only [run, specRun, runWith, stepWith]; congr 1
+      exact hstep _ rfl
     | chain i j k =>
-      simp only [run, specRun, runWith, stepWith]
-      congr 1
-      cases hb : build env (.chain i j k) with
-      | none => exact ih env henv hp'
-      | some p =>
-        obtain ⟨i', r'⟩ := p
-        cases r' with
-        | error e => exact ih env henv hp'
-        | ok S =>
-          have hg := build_good env henv _ ss hp i' S hb
-          exact ih ((i', S) :: env) (fun p hp'' => by
-            rcases List.mem_cons.mp hp'' with rfl | h
-            · exact hg
-            · exact henv p h) hp'
+      simp only [run, specRun, runWith, stepWith]; congr 1
+      exact hstep _ rfl
 
-/-! ## the code as it is today vs. the property -/
+/-- Headline theorem: for EVERY program that builds slicers (constructor, copy, transpose — also through the
+    `pp.ad.Projection` wrapper —, reverse operations, chaining; in any order, re-using earlier slicers any number of
+    times) and applies them, the outputs of the model (slicing as coded) equal the outputs of the specification
+    (explicit projection matrices), provided the constructed geometries are good and the operands rectangular. -/
+theorem run_eq_specRun (prog : List Stmt) (env : Env) (henv : Env.Good env) (hp : ProgGood prog) :
+    run env prog = specRun env prog :=
+  run_eq_of_inv Slicer.Good ProgGood ProgGood_tail (fun _ _ _ h => h.1) slicer_eq_spec
+    (fun env henv s ss hp i S h => build_good env henv s ss hp i S h) prog env henv hp
+
+/-! ### the hypotheses as decidable input conditions (evaluated by the driver on every generated program) -/
+
+theorem wfB_iff (c : Core) : c.wfB = true ↔ c.WF := by
+  unfold Core.wfB Core.WF
+  simp only [Bool.and_eq_true, beq_iff_eq, decide_eq_true_eq, List.all_eq_true, Bool.or_eq_true, Bool.not_eq_true']
+  constructor
+  · rintro ⟨⟨⟨h1, h2⟩, h3⟩, h4⟩
+    refine ⟨h1, h2, h3, ?_⟩
+    intro ho
+    rcases h4 with h4 | h4
+    · rw [ho] at h4; cases h4
+    · exact h4
+  · rintro ⟨h1, h2, h3, h4⟩
+    refine ⟨⟨⟨h1, h2⟩, h3⟩, ?_⟩
+    cases ho : c.isOnto with
+    | false => left; rfl
+    | true => right; exact h4 ho
+
+theorem goodB_iff (c : Core) : c.goodB = true ↔ c.Good := by
+  unfold Core.goodB Core.Good
+  simp only [Bool.and_eq_true, decide_eq_true_eq, List.all_eq_true, wfB_iff]
+  constructor
+  · rintro ⟨⟨h1, h2⟩, h3⟩; exact ⟨h1, h2, h3⟩
+  · rintro ⟨h1, h2, h3⟩; exact ⟨⟨h1, h2⟩, h3⟩
+
+theorem rowsB_iff (m : Nat) (X : Mat) : rowsB m X = true ↔ ∀ row ∈ X, row.length = m := by
+  simp [rowsB]
+
+theorem shapedB_sound (y : Val) (h : y.shapedB = true) : y.Shaped := by
+  cases y with
+  | scal a => trivial
+  | vec v => trivial
+  | arr m X => exact (rowsB_iff m X).mp h
+  | sp M =>
+    cases M with
+    | raw A => exact toDense_row_length A
+    | dense m X => exact (rowsB_iff m X).mp h
+  | ad v J =>
+    cases J with
+    | raw A => exact toDense_row_length A
+    | dense m X => exact (rowsB_iff m X).mp h
+
+theorem progGoodB_sound (prog : List Stmt) (h : progGoodB prog = true) : ProgGood prog := by
+  induction prog with
+  | nil => trivial
+  | cons s ss ih =>
+    cases s with
+    | new i d r rs ds =>
+      simp only [progGoodB, Bool.and_eq_true] at h
+      refine ⟨?_, ih h.2⟩
+      intro c hc
+      have h1 := h.1
+      rw [hc] at h1
+      exact (goodB_iff c).mp h1
+    | apply j y =>
+      simp only [progGoodB, Bool.and_eq_true] at h
+      exact ⟨shapedB_sound y h.1, ih h.2⟩
+    | copy i j => exact ih h
+    | transp i j => exact ih h
+    | transpP i j => exact ih h
+    | rop i j a op => exact ih h
+    | chain i j k => exact ih h
+
+/-- `run_eq_specRun` with its hypothesis as a computable check on the program text. -/
+theorem run_eq_specRun_dec (prog : List Stmt) (h : progGoodB prog = true) : run [] prog = specRun [] prog :=
+  run_eq_specRun prog [] (fun _ hp => by cases hp) (progGoodB_sound prog h)
+
+/-- Programs without transposition need less: range indices pairwise distinct and in range; DOMAIN indices may
+    repeat (the projection matrix then has repeated columns) — again as a computable check on the program text. -/
+theorem run_eq_specRun_wf (prog : List Stmt) (h : progWfB prog = true) : run [] prog = specRun [] prog := by
+  refine run_eq_of_inv Slicer.WF (fun p => progWfB p = true) ?_ ?_ slicer_eq_spec_wf ?_ prog []
+    (fun _ hp => by cases hp) h
+  · intro s ss h
+    cases s <;> simp only [progWfB, Bool.and_eq_true] at h <;> first | exact h.2 | exact h | cases h
+  · intro j y ss h
+    simp only [progWfB, Bool.and_eq_true] at h
+    exact shapedB_sound y h.1
+  · intro env henv s ss hp i S hb
+    have hlook : ∀ j S, lookup env j = .ok S → S.WF := by
+      intro j S h
+      unfold lookup at h
+      cases hf : env.find? (fun p => p.1 == j) with
+      | none => rw [hf] at h; cases h
+      | some p => rw [hf] at h; cases h; exact henv p (List.mem_of_find?_eq_some hf)
+    cases s with
+    | new i' d r rs ds =>
+      simp only [build, Option.some.injEq, Prod.mk.injEq] at hb
+      obtain ⟨_, hb⟩ := hb
+      simp only [Slicer.new] at hb
+      simp only [progWfB, Bool.and_eq_true] at hp
+      cases hc : mkCore d r rs ds with
+      | error e => rw [hc] at hb; cases hb
+      | ok c =>
+        rw [hc] at hb
+        cases hb
+        have h1 := hp.1
+        rw [hc] at h1
+        exact ⟨(wfB_iff c).mp h1, fun s hs => by cases hs⟩
+    | copy i' j =>
+      simp only [build, Option.some.injEq, Prod.mk.injEq] at hb
+      exact hlook j S hb.2
+    | transp i' j => simp [progWfB] at hp
+    | transpP i' j => simp [progWfB] at hp
+    | rop i' j a op =>
+      simp only [build, Option.some.injEq, Prod.mk.injEq] at hb
+      obtain ⟨_, hb⟩ := hb
+      cases hl : lookup env j with
+      | error e => rw [hl] at hb; cases hb
+      | ok S' =>
+        rw [hl] at hb
+        cases hb
+        have hg := hlook j S' hl
+        refine ⟨hg.1, ?_⟩
+        intro s hs
+        rcases List.mem_append.mp hs with h1 | h1
+        · exact hg.2 s h1
+        · rw [List.mem_singleton.mp h1]; trivial
+    | chain i' j k =>
+      simp only [build, Option.some.injEq, Prod.mk.injEq] at hb
+      obtain ⟨_, hb⟩ := hb
+      cases hj : lookup env j with
+      | error e => rw [hj] at hb; cases hb
+      | ok S0 =>
+        cases hk : lookup env k with
+        | error e => rw [hj, hk] at hb; cases hb
+        | ok S1 =>
+          rw [hj, hk] at hb
+          cases hb
+          have g0 := hlook j S0 hj
+          have g1 := hlook k S1 hk
+          refine ⟨g1.1, ?_⟩
+          intro s hs
+          rcases List.mem_append.mp hs with h1 | h1
+          · exact g1.2 s h1
+          · rcases List.mem_cons.mp h1 with rfl | h2
+            · exact g0.1
+            · exact g0.2 s h2
+    | apply j y => simp [build] at hb
+
+/-- The `is_transposed` flag has no influence on slicing, so `Projection.transpose()` (flag `False`) and
+    `ArraySlicer.transpose()` (flag `True`) act identically. -/
+theorem applyCore_flag_irrelevant (c : Core) (y : Val) : applyCore c.clearFlag y = applyCore c y := by
+  cases y with
+  | scal a => rfl
+  | vec v => rfl
+  | arr m X => rfl
+  | sp M => cases M <;> rfl
+  | ad v J => cases J <;> rfl
+
+/-- non-vacuity: a program with a repeated domain index is covered by the `wf` theorem but not by the `good` one -/
+example : progWfB [.new 0 (some [1, 1, 0]) none none none, .rop 1 0 (.scal 2) .mul, .apply 1 (.vec [3, 4])] = true ∧
+    progGoodB [.new 0 (some [1, 1, 0]) none none none, .rop 1 0 (.scal 2) .mul, .apply 1 (.vec [3, 4])] = false ∧
+    progGoodB [.new 0 (some [1, 0]) none none none, .transpP 1 0, .apply 1 (.vec [3, 4])] = true ∧
+    run [] [.new 0 (some [1, 1, 0]) none none none, .rop 1 0 (.scal 2) .mul, .apply 1 (.vec [3, 4])]
+      = [none, none, some (.ok (.vec [8, 8, 6]))] := by decide +kernel
+
+/-! ## the code before repair a33b43101 vs. the property (= the code now) -/
 
 /-- `a ∘ S` as coded (pending pair overwritten) is right when `S` carries no pending operation. -/
 theorem ropNow_eq (S : Slicer) (a : Const) (op : BinOp) (h : S.pending = []) : ropNow S a op = rop S a op := by
